@@ -651,4 +651,273 @@ theorem lexAll_write (toks : List Token) (hwf : ∀ t ∈ toks, WfTok t) :
   have := flatMap_write_length toks
   omega
 
+/-! ### how long an input can be while `read_token` still says `Eof` -/
+
+/-- `Eof` is only reported on inputs shorter than `m` -/
+def EofBound {α : Type} (p : P α) (m : Nat) : Prop := ∀ d, p d = .error .eof → d.length < m
+
+/-- at most `c` bytes are consumed -/
+def MaxLen {α : Type} (p : P α) (c : Nat) : Prop := ∀ d x r, p d = .ok (x, r) → d.length ≤ r.length + c
+
+theorem EofBound.mono {α : Type} {p : P α} {m m' : Nat} (h : EofBound p m) (hm : m ≤ m') : EofBound p m' :=
+  fun d hd => Nat.lt_of_lt_of_le (h d hd) hm
+
+theorem EofBound.bind {α β : Type} {p : P α} {k : α → P β} {mp cp mk : Nat} (m : Nat)
+    (hp : EofBound p mp) (hc : MaxLen p cp) (hk : ∀ x, EofBound (k x) mk) (h1 : mp ≤ m) (h2 : cp + mk ≤ m) :
+    EofBound (P.bind p k) m := by
+  intro d hd
+  unfold P.bind at hd
+  split at hd
+  · rename_i e he
+    simp only [Except.error.injEq] at hd
+    subst hd
+    have := hp d he
+    omega
+  · rename_i x d1 hx
+    have a := hc d x d1 hx
+    have b := hk x d1 hd
+    omega
+
+theorem EofBound.map {α β : Type} {p : P α} (f : α → β) {m : Nat} (hp : EofBound p m) : EofBound (P.map f p) m := by
+  intro d hd
+  unfold P.map at hd
+  split at hd
+  · rename_i e he
+    simp only [Except.error.injEq] at hd
+    subst hd
+    exact hp d he
+  · simp at hd
+
+theorem EofBound.pure {α : Type} (x : α) (m : Nat) : EofBound (P.pure x) m := by
+  intro d hd; simp [P.pure] at hd
+
+theorem EofBound.failRgb {α : Type} (m : Nat) : EofBound (P.fail .invalidRgb : P α) m := by
+  intro d hd; simp [P.fail] at hd
+
+theorem EofBound.ite {α : Type} {c : Prop} [Decidable c] {p q : P α} {m : Nat} (hp : EofBound p m)
+    (hq : EofBound q m) : EofBound (if c then p else q) m := by
+  split <;> assumption
+
+theorem eofBound_split {α : Type} (n : Nat) (f : Bytes → α) :
+    EofBound (fun d => match getSplit n d with | none => .error .eof | some (h, r) => .ok (f h, r) : P α) n := by
+  intro d hd
+  dsimp only at hd
+  split at hd
+  · rename_i hn; exact getSplit_none.mp hn
+  · simp at hd
+
+theorem maxLen_split {α : Type} (n : Nat) (f : Bytes → α) :
+    MaxLen (fun d => match getSplit n d with | none => .error .eof | some (h, r) => .ok (f h, r) : P α) n := by
+  intro d x r hd
+  dsimp only at hd
+  split at hd
+  · simp at hd
+  · rename_i hh rr hs
+    simp only [Except.ok.injEq, Prod.mk.injEq] at hd
+    obtain ⟨h1, h2⟩ := getSplit_some hs
+    rw [h1, ← hd.2]; simp; omega
+
+theorem readId_eofBound : EofBound readId 2 := eofBound_split 2 leNat
+theorem readId_maxLen : MaxLen readId 2 := maxLen_split 2 leNat
+theorem readU32_eofBound : EofBound readU32 4 := eofBound_split 4 leNat
+theorem readU32_maxLen : MaxLen readU32 4 := maxLen_split 4 leNat
+theorem readU64_eofBound : EofBound readU64 8 := eofBound_split 8 leNat
+theorem readI32_eofBound : EofBound readI32 4 := eofBound_split 4 (fun h => toSigned 32 (leNat h))
+theorem readI64_eofBound : EofBound readI64 8 := eofBound_split 8 (fun h => toSigned 64 (leNat h))
+theorem readF32_eofBound : EofBound readF32 4 := eofBound_split 4 id
+theorem readF64_eofBound : EofBound readF64 8 := eofBound_split 8 id
+
+theorem readBool_eofBound : EofBound readBool 1 := by
+  intro d hd
+  cases d with
+  | nil => simp
+  | cons a t => simp [readBool] at hd
+
+theorem leNat2_le (h : Bytes) (hl : h.length = 2) : leNat h ≤ 65535 := by
+  have := leNat_lt h
+  rw [hl] at this
+  simp at this
+  omega
+
+theorem readString_eofBound : EofBound readString 65537 := by
+  intro d hd
+  unfold readString at hd
+  split at hd
+  · rename_i hn
+    have := getSplit_none.mp hn
+    omega
+  · rename_i hh rr hs
+    simp only at hd
+    obtain ⟨h1, h2⟩ := getSplit_some hs
+    have hb := leNat2_le hh h2
+    split at hd
+    · simp at hd
+    · rw [h1]; simp; omega
+
+theorem readRgb_eofBound : EofBound readRgb 28 := by
+  unfold readRgb
+  refine EofBound.bind 28 readId_eofBound readId_maxLen (mk := 26) (fun _ => ?_) (by omega) (by omega)
+  refine EofBound.bind 26 readId_eofBound readId_maxLen (mk := 24) (fun _ => ?_) (by omega) (by omega)
+  refine EofBound.bind 24 readU32_eofBound readU32_maxLen (mk := 20) (fun _ => ?_) (by omega) (by omega)
+  refine EofBound.bind 20 readId_eofBound readId_maxLen (mk := 18) (fun _ => ?_) (by omega) (by omega)
+  refine EofBound.bind 18 readU32_eofBound readU32_maxLen (mk := 14) (fun _ => ?_) (by omega) (by omega)
+  refine EofBound.bind 14 readId_eofBound readId_maxLen (mk := 12) (fun _ => ?_) (by omega) (by omega)
+  refine EofBound.bind 12 readU32_eofBound readU32_maxLen (mk := 8) (fun _ => ?_) (by omega) (by omega)
+  refine EofBound.bind 8 readId_eofBound readId_maxLen (mk := 6) (fun _ => ?_) (by omega) (by omega)
+  refine EofBound.ite (EofBound.pure _ _) (EofBound.ite ?_ (EofBound.failRgb _))
+  refine EofBound.bind 6 readU32_eofBound readU32_maxLen (mk := 2) (fun _ => ?_) (by omega) (by omega)
+  refine EofBound.bind 2 readId_eofBound readId_maxLen (mk := 0) (fun _ => ?_) (by omega) (by omega)
+  exact EofBound.ite (EofBound.pure _ _) (EofBound.failRgb _)
+
+/-- `read_token` can only say `Eof` on fewer than 65539 = `u16::MAX + 4` bytes -/
+theorem readToken_eofBound : EofBound readToken 65539 := by
+  unfold readToken
+  refine EofBound.bind 65539 readId_eofBound readId_maxLen (mk := 65537) (fun _ => ?_) (by omega) (by omega)
+  repeat' (first | apply EofBound.ite | apply EofBound.pure | apply EofBound.map)
+  all_goals first
+    | exact readU32_eofBound.mono (by omega) | exact readU64_eofBound.mono (by omega)
+    | exact readI32_eofBound.mono (by omega) | exact readI64_eofBound.mono (by omega)
+    | exact readBool_eofBound.mono (by omega) | exact readString_eofBound
+    | exact readF32_eofBound.mono (by omega) | exact readF64_eofBound.mono (by omega)
+    | exact readRgb_eofBound.mono (by omega)
+
+theorem readString_err {d : Bytes} {e : LexErr} (h : readString d = .error e) : e = .eof := by
+  unfold readString at h
+  split at h
+  · simp only [Except.error.injEq] at h; exact h.symm
+  · simp only at h
+    split at h
+    · simp at h
+    · simp only [Except.error.injEq] at h; exact h.symm
+
+/-! ### `next_id` + the individual `read_*` primitives against `read_token` -/
+
+theorem readId_nonempty {d d1 : Bytes} {id : Nat} (h : readId d = .ok (id, d1)) : d.isEmpty = false := by
+  obtain ⟨pre, hp, hl⟩ := readId_consumes d id d1 h
+  cases d with
+  | nil => simp at hp; rw [hp.1] at hl; simp at hl
+  | cons a t => rfl
+
+/-- one branch of the `next_id` + `read_*` loop against `read_token`'s `P.map mk p` -/
+theorem ids_branch {α : Type} (fuel : Nat) (l : Lexer) (d1 : Bytes) (p : P α) (mk : α → Token)
+    (hne : l.data.isEmpty = false)
+    (rec : Lexer → List Token × Terminal × Nat)
+    (ih : ∀ l2 : Lexer, (rec l2).1 = (lexLoop fuel l2.data).1 ∧ (rec l2).2.1 = (lexLoop fuel l2.data).2.1) :
+    let lhs := (match Lexer.lift p ({ l with data := d1 }) with
+      | (.error e, l) => (([] : List Token), Terminal.err e.kind, l.position)
+      | (.ok x, l) => let (ts, term, pp) := rec l; (mk x :: ts, term, pp))
+    let rhs := (match P.map mk p d1 with
+      | .ok (t, rest) => let (ts, term, left) := lexLoop fuel rest; (t :: ts, term, left)
+      | .error .eof => if l.data.isEmpty then ([], .done, l.data) else ([], .err .eof, l.data)
+      | .error e => ([], .err e, l.data))
+    lhs.1 = rhs.1 ∧ lhs.2.1 = rhs.2.1 := by
+  intro lhs rhs
+  simp only [lhs, rhs, Lexer.lift, P.map]
+  cases hp : p d1 with
+  | error e =>
+    simp only [Lexer.errPosition]
+    cases e <;> simp [hne]
+  | ok v =>
+    obtain ⟨x, d2⟩ := v
+    simp only
+    have := ih { l with data := d2 }
+    simp only at this
+    exact ⟨by rw [this.1], this.2⟩
+
+theorem readId_err {d : Bytes} {e : LexErr} (h : readId d = .error e) : e = .eof := by
+  unfold readId at h
+  split at h
+  · simp only [Except.error.injEq] at h; exact h.symm
+  · simp at h
+
+theorem runIds_agree (fuel : Nat) (l : Lexer) :
+    (Lexer.runIdsLoop fuel l).1 = (lexLoop fuel l.data).1 ∧
+    (Lexer.runIdsLoop fuel l).2.1 = (lexLoop fuel l.data).2.1 := by
+  induction fuel generalizing l with
+  | zero => simp [Lexer.runIdsLoop, lexLoop]
+  | succ fuel ih =>
+    rw [Lexer.runIdsLoop, lexLoop]
+    simp only [Lexer.nextId, Lexer.liftNext, readToken, P.bind]
+    cases hid : readId l.data with
+    | error e =>
+      have := readId_err hid
+      subst this
+      simp only [Lexer.remainder]
+      by_cases hd : l.data.isEmpty = true
+      · simp [hd]
+      · simp [hd, Lexer.errPosition]
+    | ok v =>
+      obtain ⟨id, d1⟩ := v
+      have hne := readId_nonempty hid
+      simp only
+      by_cases h1 : id = OPEN
+      · rw [if_pos h1, if_pos h1]
+        have := ih { l with data := d1 }
+        simp only [P.pure] at this ⊢
+        exact ⟨by rw [this.1], this.2⟩
+      rw [if_neg h1, if_neg h1]
+      by_cases h2 : id = CLOSE
+      · rw [if_pos h2, if_pos h2]
+        have := ih { l with data := d1 }
+        simp only [P.pure] at this ⊢
+        exact ⟨by rw [this.1], this.2⟩
+      rw [if_neg h2, if_neg h2]
+      by_cases h3 : id = EQUAL
+      · rw [if_pos h3, if_pos h3]
+        have := ih { l with data := d1 }
+        simp only [P.pure] at this ⊢
+        exact ⟨by rw [this.1], this.2⟩
+      rw [if_neg h3, if_neg h3]
+      by_cases h4 : id = U32
+      · rw [if_pos h4, if_pos h4]
+        exact ids_branch fuel l d1 readU32 .u32 hne _ ih
+      rw [if_neg h4, if_neg h4]
+      by_cases h5 : id = U64
+      · rw [if_pos h5, if_pos h5]
+        exact ids_branch fuel l d1 readU64 .u64 hne _ ih
+      rw [if_neg h5, if_neg h5]
+      by_cases h6 : id = I32
+      · rw [if_pos h6, if_pos h6]
+        exact ids_branch fuel l d1 readI32 .i32 hne _ ih
+      rw [if_neg h6, if_neg h6]
+      by_cases h7 : id = BOOL
+      · rw [if_pos h7, if_pos h7]
+        exact ids_branch fuel l d1 readBool .bool hne _ ih
+      rw [if_neg h7, if_neg h7]
+      by_cases h8 : id = QUOTED
+      · rw [if_pos h8, if_pos h8]
+        exact ids_branch fuel l d1 readString .quoted hne _ ih
+      rw [if_neg h8, if_neg h8]
+      by_cases h9 : id = UNQUOTED
+      · rw [if_pos h9, if_pos h9]
+        exact ids_branch fuel l d1 readString .unquoted hne _ ih
+      rw [if_neg h9, if_neg h9]
+      by_cases h10 : id = F32
+      · rw [if_pos h10, if_pos h10]
+        exact ids_branch fuel l d1 readF32 .f32 hne _ ih
+      rw [if_neg h10, if_neg h10]
+      by_cases h11 : id = F64
+      · rw [if_pos h11, if_pos h11]
+        exact ids_branch fuel l d1 readF64 .f64 hne _ ih
+      rw [if_neg h11, if_neg h11]
+      by_cases h12 : id = RGB
+      · rw [if_pos h12, if_pos h12]
+        exact ids_branch fuel l d1 readRgb .rgb hne _ ih
+      rw [if_neg h12, if_neg h12]
+      by_cases h13 : id = I64
+      · rw [if_pos h13, if_pos h13]
+        exact ids_branch fuel l d1 readI64 .i64 hne _ ih
+      rw [if_neg h13, if_neg h13]
+      have := ih { l with data := d1 }
+      simp only [P.pure] at this ⊢
+      exact ⟨by rw [this.1], this.2⟩
+
+/-- driving the lexer with `next_id` and the `read_*` primitive that belongs to the id (the
+documented "zero overhead" loop) yields the same tokens and the same terminal outcome as
+`next_token` / `lexAll` (the final position differs only when a payload is cut short: the id
+has already been consumed) -/
+theorem Lexer.runIds_eq (d : Bytes) :
+    (Lexer.runIds d).1 = (lexAll d).1 ∧ (Lexer.runIds d).2.1 = (lexAll d).2.1 :=
+  runIds_agree _ (Lexer.new d)
+
 end Jomini.BinLexer
